@@ -400,14 +400,15 @@ def _run(mod, prop, tier, seed, replay, t0):
     for d in rep.disagreements[:1]:
         broken.append(f"correspondence {d.component} differs on {jsonable(d.input)!r:.200}")
 
-    # 3. failing-input search when something broke and nothing concrete has been found yet
-    if broken and not rep.failures and hasattr(mod, "search") and not replay:
+    known = [k for k in load_known() if k.get("property") == prop and k.get("status") == "known"]
+    known_fp = {k["fingerprint"]: k for k in known}
+
+    # 3. failing-input search when something broke and no *unlisted* failing input has been found yet
+    #    (a listed known finding does not explain a broken proof obligation or correspondence)
+    if broken and not [f for f in rep.failures if f.fingerprint not in known_fp] and hasattr(mod, "search") and not replay:
         ctx.escalate = True
         extra = mod.search(ctx, rep)
         rep.merge(extra)
-
-    known = [k for k in load_known() if k.get("property") == prop and k.get("status") == "known"]
-    known_fp = {k["fingerprint"]: k for k in known}
     new_failures = [f for f in rep.failures if f.fingerprint not in known_fp]
     listed = {}
     for f in rep.failures:
@@ -440,7 +441,7 @@ def _run(mod, prop, tier, seed, replay, t0):
         lines.append(f"VIOLATION property={prop} replay={path}")
         violations = len(new_failures)
         exit_code = 1
-    elif broken and not listed:
+    elif broken:
         path = write_replay(
             prop,
             {
